@@ -9,6 +9,10 @@ ops:
         free=: slots that have no registered user id (candidates for a registration; not reachable by syncquery/load)
   newuser <id> <startMoney> <slot> <hex of the registration record>
         ptt.SetupNewUser; <slot> is the slot the id was observed to get (0: the registration was refused)
+  config <0|1>                          ptttype.USE_COOLDOWN for the rest of the history (a reset restores `true`)
+  loaduhash <0|1>                       0: cache.Shm.Reset() + cache.LoadUHash() (fresh start); 1: cache.LoadUHash() on the
+                                        live segment (on-the-fly reload)
+  pokerec <uid> <id|-|=> <money>        an external edit of .PASSWDS: user id (`-` empty, `=` unchanged) and Money of a record
   resetconc <G> <N> <seed>              concurrent stress (judged by the oracle only; the model answers `done`)
   resetconcrec <G> <N> <seed>           the same with whole-record writers, readers and a registrar
   set <uid> <money> | de <uid> <money> | get <uid>            (int32 decimals)
@@ -56,9 +60,19 @@ def hex16 (h : UInt64) : String :=
   let n := h.toNat
   String.ofList ((List.range 16).map fun i => hexChar (n / 16 ^ (15 - i) % 16))
 
+/-- the user id the harness registers for slot `u`: "vuNN", NUL padded to the field. -/
+def nameOf (u : Nat) : List Nat :=
+  let d := toString u
+  copyInto Gen.Money.userIDSize ([118, 117] ++ ((if d.length < 2 then "0" ++ d else d).toList.map Char.toNat))
+
+def emptyId : List Nat := List.replicate Gen.Money.userIDSize 0
+
+def idOfSlot (free : List Int) (u : Nat) : List Nat := if free.contains (u : Int) then emptyId else nameOf u
+
 /-- a generated `.PASSWDS`: a 64-bit LCG (top byte of every state) as filler, then the little-endian money of
-record `r` at `recSize*r + moneyOffset` for every value given. -/
-def mkFile (seed : Nat) (n : Nat) (vals : List Int) : List Nat := Id.run do
+record `r` at `recSize*r + moneyOffset` for every value given, then the user id of every complete record
+that belongs to a slot ("vuNN", or empty for a free slot). -/
+def mkFile (seed : Nat) (n : Nat) (vals : List Int) (free : List Int) : List Nat := Id.run do
   let mut x : UInt64 := seed.toUInt64
   let mut a : Array Nat := Array.mkEmpty n
   for _ in [0:n] do
@@ -71,6 +85,13 @@ def mkFile (seed : Nat) (n : Nat) (vals : List Int) : List Nat := Id.run do
     for k in [0:4] do
       a := a.setIfInBounds (off + k) (bs.getD k 0)
     r := r + 1
+  -- the UserID of every complete record that belongs to a slot
+  for u in [1:Gen.Money.maxUsers + 1] do
+    if Gen.Money.recSize * u ≤ n then
+      let off := Gen.Money.recSize * (u - 1) + Gen.Money.userIDOffset
+      let nm := idOfSlot free u
+      for k in [0:Gen.Money.userIDSize] do
+        a := a.setIfInBounds (off + k) (nm.getD k 0)
   return a.toList
 
 def showErr : Err → String
@@ -104,7 +125,9 @@ def showAns (a : Ans) : String :=
 structure DState where
   st : Option State := none
   stale : List (Int × List Nat) := []
-  free : List Int := []
+  ids : List (List Nat) := []    -- Shm.Shm.Userid
+  cd : Bool := true              -- ptttype.USE_COOLDOWN
+  hm : HashMeta := { number := Gen.Money.maxUsers, loaded := 1 }   -- after the harness loaded its names
 
 def lvlOf (s : State) (u : Int) : String :=
   match s.file with
@@ -134,7 +157,7 @@ def doQuery (d : DState) (u : Int) (keep : Bool) : DState × String :=
   match d.st with
   | none => (d, "bad-op")
   | some s =>
-      if d.free.contains u then (d, "no-name") else
+      if (1 ≤ u ∧ u ≤ (Gen.Money.maxUsers : Int)) ∧ cstr (d.ids.getD (u - 1).toNat []) = [] then (d, "no-name") else
       match passwdSyncQuery s u with
       | .error f => (d, s!"{f} money=- recd=- " ++ observe2 s u)
       | .ok (.error e) => (d, s!"{showErr e} money=- recd=- " ++ observe2 s u)
@@ -172,30 +195,31 @@ def parseFree (s : String) : Option (List Int) :=
       if l.all (fun u => 1 ≤ u ∧ u ≤ (Gen.Money.maxUsers : Int)) && l.eraseDups.length == l.length && !l.isEmpty
       then some l else none
 
-def doNewUser (d : DState) (m u : Int) (rec : List Nat) : DState × String :=
+def doNewUser (d : DState) (idBytes : List Nat) (m u : Int) (rec : List Nat) : DState × String :=
   match d.st with
   | none => (d, "bad-op")
   | some s =>
       if u = 0 then (d, "rejected") else
       let (s', a) := step s (.newuser u rec m)
-      let d' := { d with st := some s', free := d.free.filter (· != u) }
+      let d' := { d with st := some s', ids := d.ids.set (u - 1).toNat (copyInto Gen.Money.userIDSize idBytes) }
       (d', (match a with | .ok (_, e) => showErr e | .error f => toString f) ++ " " ++ observe2 s' u)
 
-def stepC20Reset (st : DState) (nrec tail seed shm disk : String) : DState × String :=
+def stepC20Reset (st : DState) (nrec tail seed shm disk : String) (free : List Int) : DState × String :=
+    let ids0 := (List.range Gen.Money.maxUsers).map fun k => idOfSlot free (k + 1)
     match parseNat tail 6, parseNat seed 19, parseCsv shm, parseCsv disk with
     | some tail, some seed, some shm, some disk =>
         if shm.length ≠ Gen.Money.maxUsers then (st, "bad-op") else
         if nrec = "nofile" then
           if disk.length ≠ 0 ∨ tail ≠ 0 then (st, "bad-op") else
           let s : State := { shm := shm, file := none }
-          ({ st := some s, stale := [], free := [] }, s!"ok len=- shmd={hex16 (fnv (s.shm.flatMap le32))} rest=-")
+          ({ st := some s, stale := [], ids := ids0, cd := true, hm := { number := Gen.Money.maxUsers, loaded := 1 } }, s!"ok len=- shmd={hex16 (fnv (s.shm.flatMap le32))} rest=-")
         else match parseNat nrec 4 with
           | none => (st, "bad-op")
           | some n =>
               if disk.length ≠ n ∨ n > 2 * Gen.Money.maxUsers ∨ tail ≥ Gen.Money.recSize then (st, "bad-op") else
-              let f := mkFile seed (Gen.Money.recSize * n + tail) disk
+              let f := mkFile seed (Gen.Money.recSize * n + tail) disk free
               let s : State := { shm := shm, file := some f }
-              ({ st := some s, stale := [], free := [] }, s!"ok len={f.length} shmd={hex16 (fnv (s.shm.flatMap le32))} rest={hex16 (fnv f)}")
+              ({ st := some s, stale := [], ids := ids0, cd := true, hm := { number := Gen.Money.maxUsers, loaded := 1 } }, s!"ok len={f.length} shmd={hex16 (fnv (s.shm.flatMap le32))} rest={hex16 (fnv f)}")
     | _, _, _, _ => (st, "bad-op")
 
 def stepC20 (d : DState) (ws : List String) : DState × String :=
@@ -206,27 +230,60 @@ def stepC20 (d : DState) (ws : List String) : DState × String :=
   | ["resetconcrec", g, n, seed] =>
       match parseNat g 2, parseNat n 6, parseNat seed 19 with
       | some g, some n, some _ =>
-          if 1 ≤ g ∧ 2 * g ≤ Gen.Money.maxUsers ∧ 1 ≤ n ∧ n ≤ 100000 then ({ st := none, stale := [], free := [] }, "done")
+          if 1 ≤ g ∧ 2 * g ≤ Gen.Money.maxUsers ∧ 1 ≤ n ∧ n ≤ 100000 then ({ st := none, stale := [], ids := [], cd := true }, "done")
           else (st, "bad-op")
       | _, _, _ => (st, "bad-op")
   | ["resetconc", g, n, seed] =>
       match parseNat g 2, parseNat n 6, parseNat seed 19 with
       | some g, some n, some _ =>
-          if 1 ≤ g ∧ 2 * g ≤ Gen.Money.maxUsers ∧ 1 ≤ n ∧ n ≤ 100000 then ({ st := none, stale := [], free := [] }, "done")
+          if 1 ≤ g ∧ 2 * g ≤ Gen.Money.maxUsers ∧ 1 ≤ n ∧ n ≤ 100000 then ({ st := none, stale := [], ids := [], cd := true }, "done")
           else (st, "bad-op")
       | _, _, _ => (st, "bad-op")
   | ["newuser", id, m, u, hex] =>
       match parseI32 m, parseI32 u, parseHex hex with
       | some m, some u, some rec =>
-          if isIdent id ∧ rec.length = Gen.Money.recSize ∧ 0 ≤ u then doNewUser st m u rec else (st, "bad-op")
+          if isIdent id ∧ rec.length = Gen.Money.recSize ∧ 0 ≤ u then doNewUser st (id.toList.map Char.toNat) m u rec else (st, "bad-op")
       | _, _, _ => (st, "bad-op")
   | ["reset", nrec, tail, seed, shm, disk, free] =>
       match parseFree free with
       | none => (st, "bad-op")
-      | some fl =>
-          let r := stepC20Reset st nrec tail seed shm disk
-          if r.2 = "bad-op" then r else ({ r.1 with free := fl }, r.2)
-  | ["reset", nrec, tail, seed, shm, disk] => stepC20Reset st nrec tail seed shm disk
+      | some fl => stepC20Reset st nrec tail seed shm disk fl
+  | ["reset", nrec, tail, seed, shm, disk] => stepC20Reset st nrec tail seed shm disk []
+  | ["config", v] =>
+      match st.st with
+      | none => (st, "bad-op")
+      | some _ => if v = "1" then ({ st with cd := true }, "ok") else if v = "0" then ({ st with cd := false }, "ok") else (st, "bad-op")
+  | ["loaduhash", v] =>
+      match st.st with
+      | none => (st, "bad-op")
+      | some s =>
+          if v ≠ "0" ∧ v ≠ "1" then (st, "bad-op") else
+          -- "0": cache.Shm.Reset() first (Userid empty, Money 0, Number 0, Loaded 0)
+          let r := if v = "1" then loadUHashTop st.cd st.hm st.ids s
+            else loadUHashTop st.cd { number := 0, loaded := 0 } (List.replicate MAX (List.replicate IDSZ 0))
+              { s with shm := List.replicate MAX 0 }
+          let s' := r.1.2.2
+          let ids' := r.1.2.1
+          let cls := match r.2 with | .ok e => showErr e | .error f => toString f
+          let filed := match s'.file with | some f => s!"len={f.length} rest={hex16 (fnv f)}" | none => "len=- rest=-"
+          ({ st with st := some s', ids := ids', hm := r.1.1 },
+           s!"{cls} idd={hex16 (fnv ids'.flatten)} shmd={hex16 (fnv (s'.shm.flatMap le32))} {filed}")
+  | ["pokerec", u, id, m] =>
+      match st.st, parseI32 u, parseI32 m with
+      | some s, some u, some m =>
+          match s.file with
+          | none => (st, "bad-op")
+          | some f =>
+              let base := Gen.Money.recSize * (u - 1).toNat
+              if ¬ ((1 ≤ u ∧ u ≤ (Gen.Money.maxUsers : Int)) ∧ base + Gen.Money.recSize ≤ f.length) then (st, "bad-op") else
+              if ¬ (id = "-" ∨ id = "=" ∨ isIdent id) then (st, "bad-op") else
+              let f1 := if id = "=" then f
+                else writeAt f (base + Gen.Money.userIDOffset)
+                  (if id = "-" then emptyId else copyInto Gen.Money.userIDSize (id.toList.map Char.toNat))
+              let f2 := writeAt f1 (base + Gen.Money.moneyOffset) (le32 m)
+              let s' : State := { s with file := some f2 }
+              ({ st with st := some s' }, "ok " ++ observe2 s' u)
+      | _, _, _ => (st, "bad-op")
   | ["set", u, m] =>
       match parseI32 u, parseI32 m with
       | some u, some m => doOp st (.set u m) u
